@@ -53,6 +53,8 @@ fn run_bin(bin: &str, manifest: &[u8], argv: &Option<Vec<u8>>) -> String {
 }
 
 pub fn run(ctx: &mut Ctx) {
+    // one line per case on disk before the binary runs: the watchdog of ./check looks at file growth
+    ctx.crash_safe = true;
     let Ok(bin) = std::env::var("N2V_N2BIN") else { return };
     let tp = TempProject::new("diag");
     if let Some(cases) = ctx.replay_cases() {
